@@ -6,7 +6,10 @@
     - Available() after every call,
     - Available() of a second allocator opened on the same bytes after every
       call, and - where the harness recovered it - the set of allocated indices
-      of an allocator opened on a copy of the bytes (recovered through FreeBlock),
+      of an allocator opened on a copy of the bytes (recovered through FreeBlock);
+      both against the model's NewBlocks on the model's bytes at that point:
+      after a Grow of the storage under the live allocator ([OGrow]) the second
+      allocator sees more segments than the live one (or fails under fit),
     - at the end the content of the blocks the user wrote (first byte, last
       byte, sum of all bytes), read back through Block().
     Concurrent cases carry what 8 goroutines ended up holding; the check is the
@@ -113,6 +116,40 @@ Fixpoint seg_scan (n : nat) (buf : buffer) (bs : Z) (s : Z) : list Z :=
 Definition alloc_scan (b : blocks) : list Z :=
   seg_scan (Z.to_nat (segments b)) (bts b) (blkSize b) 0.
 
+(* the marks behind the live segments, inside the storage ([hidden_list]), header byte by header byte *)
+Fixpoint hid_scan (n : nat) (buf : buffer) (bs : Z) (s : Z) : list Z :=
+  match n with
+  | O => []
+  | S n' =>
+      let a := s * ((8 * bs + 1) * bs) in
+      hdr_scan (Z.to_nat (Z.min bs (bsize buf - a))) buf a (s * (8 * bs)) ++ hid_scan n' buf bs (s + 1)
+  end.
+
+Definition hidden_scan (b : blocks) : list Z :=
+  let bs := blkSize b in
+  hid_scan (Z.to_nat (bsize (bts b) / ((8 * bs + 1) * bs) + 1 - segments b)) (bts b) bs (segments b).
+
+Definition spec_of (b : blocks) : aspec :=
+  mkSpec (blkSize b) (segments b) (alloc_scan b) (bsize (bts b)) (hidden_scan b).
+
+(* does the allocator cover its storage (no room behind the live segments that a reopen would use)? *)
+Definition covers (fit : bool) (b : blocks) : bool :=
+  let ss := (8 * blkSize b + 1) * blkSize b in
+  (segments b =? bsize (bts b) / ss) && (negb fit || (bsize (bts b) mod ss =? 0)).
+
+(* what a second NewBlocks on the model's bytes gives *)
+Definition view (page : Z) (fit : bool) (b : blocks) : option blocks :=
+  if covers fit b then Some b
+  else match new_blocks page (blkSize b) (bts b) fit with CtorOk b2 => Some b2 | _ => None end.
+
+(* Available() of the second allocator minus Available() of the live one; None = NewBlocks fails.
+   Constant between two operations that change size or segments (Grow, reopen). *)
+Definition view_delta (page : Z) (fit : bool) (b : blocks) : option Z :=
+  match view page fit b with Some b2 => Some (available b2 - available b) | None => None end.
+
+Definition changes_view (o : op) : bool :=
+  match o with OGrow _ | OReopen => true | _ => false end.
+
 (* an ascending list as maximal ranges (first, last) *)
 Fixpoint ranges_of (l : list Z) : list (Z * Z) :=
   match l with
@@ -135,19 +172,27 @@ Fixpoint ranges_eqb (a b : list (Z * Z)) : bool :=
 Definition rset_matches (b : blocks) (r : list (Z * Z)) : bool :=
   ranges_eqb r (ranges_of (if blocks_count b <=? 600 then alloc_list b else alloc_scan b)).
 
-Fixpoint check_steps (page : Z) (fit : bool) (b : blocks) (sp : aspec) (l : list ostep) : bool * blocks :=
+Fixpoint check_steps (page : Z) (fit : bool) (b : blocks) (sp : aspec) (d : option Z) (l : list ostep)
+  : bool * blocks :=
   match l with
   | [] => (true, b)
   | s :: t =>
       let '(b', mo) := step page fit b (s_op s) in
-      let '(sp', so) := sp_step sp (s_op s) in
+      let '(sp', so) := sp_step fit sp (s_op s) in
+      let d' := if changes_view (s_op s) then view_delta page fit b' else d in
       if out_eqb mo (s_out s) && out_eqb so (s_out s)
-         && (available b' =? s_avail s) && (s_ravail s =? available b')
+         && (available b' =? s_avail s)
+         && (s_ravail s =? match d' with Some x => available b' + x | None => -1 end)
          && match s_rset s with
             | None => true
-            | Some r => ranges_eqb r (ranges_of (sp_alloc sp')) && rset_matches b' r
+            | Some r =>
+                (* the set was recovered from an allocator opened on a copy of the bytes *)
+                match sp_reopen fit sp', view page fit b' with
+                | (spr, OutOk), Some b2 => ranges_eqb r (ranges_of (sp_alloc spr)) && rset_matches b2 r
+                | _, _ => false
+                end
             end
-      then check_steps page fit b' sp' t
+      then check_steps page fit b' sp' d' t
       else (false, b')
   end.
 
@@ -169,8 +214,8 @@ Definition check_seq (c : seqcase) : bool :=
   | CtorOk b, COk segs cnt av =>
       (segments b =? segs) && (blocks_count b =? cnt) && (available b =? av)
       && (if blocks_count b <=? 600 then zlist_eqb (alloc_scan b) (alloc_list b) else true)
-      && (let '(ok, bf) := check_steps (q_page c) (q_fit c) b
-                             (mkSpec (blkSize b) (segments b) (alloc_scan b)) (q_steps c) in
+      && (let '(ok, bf) := check_steps (q_page c) (q_fit c) b (spec_of b)
+                             (view_delta (q_page c) (q_fit c) b) (q_steps c) in
           ok && forallb (check_read bf) (q_final c))
   | CtorErr e, CErr e' => err_eqb e e' && match q_steps c with [] => true | _ => false end
   | CtorPanic, CPanic => match q_steps c with [] => true | _ => false end
@@ -215,11 +260,11 @@ Definition explain (c : case) : option (Z * Z * Z) * list (op * out * out * out 
             | [] => []
             | s :: t =>
                 let '(b', mo) := step (q_page q) (q_fit q) b (s_op s) in
-                let '(sp', so) := sp_step sp (s_op s) in
+                let '(sp', so) := sp_step (q_fit q) sp (s_op s) in
                 (s_op s, s_out s, mo, so, available b') :: go b' sp' t
             end in
           (Some (segments b, blocks_count b, available b),
-           go b (mkSpec (blkSize b) (segments b) (alloc_scan b)) (q_steps q))
+           go b (spec_of b) (q_steps q))
       | _ => (None, [])
       end
   | CConc _ _ => (None, [])
